@@ -467,16 +467,47 @@ int SimulateMips::execute()
       if (((opcode >> 6) & 0x3ff) == 0 && (opcode & 0x3f) == 0x1a)
       {
         // div
-        hi = reg[rs] % reg[rt];
-        lo = reg[rs] / reg[rt];
+        // Division by zero and INT_MIN / -1 leave HI/LO UNPREDICTABLE on MIPS
+        // (no exception): don't let the host trap on them.
+        if (reg[rt] == 0)
+        {
+          hi = reg[rs];
+          lo = reg[rs] >= 0 ? -1 : 1;
+        }
+          else
+        if (reg[rt] == -1)
+        {
+          hi = 0;
+          lo = 0 - (uint32_t)reg[rs];
+        }
+          else
+        {
+          hi = reg[rs] % reg[rt];
+          lo = reg[rs] / reg[rt];
+        }
         break;
       }
 
       if (((opcode >> 6) & 0x3ff) == 0 && (opcode & 0x3f) == 0x1b)
       {
         // divu
-        hi = reg[rs] % reg[rt];
-        lo = reg[rs] / reg[rt];
+        if (reg[rt] == 0)
+        {
+          hi = reg[rs];
+          lo = 0xffffffff;
+        }
+          else
+        if (reg[rt] == -1)
+        {
+          // (as before this is computed on the signed values)
+          hi = 0;
+          lo = 0 - (uint32_t)reg[rs];
+        }
+          else
+        {
+          hi = reg[rs] % reg[rt];
+          lo = reg[rs] / reg[rt];
+        }
         break;
       }
 
